@@ -319,3 +319,39 @@ package gossipval
 //@   ensures marks: n_mark_contrib == old(n_mark_contrib) + ite(res.Result == ACCEPT, 1, 0) && (res.Result != ACCEPT ==> gvver == old(gvver))
 //@   loop 1
 //@     invariant forall k :: {indices[k]} 0 <= k && k <= rangeindex ==> indices[k] != signedContribAndProof.Message.AggregatorIndex
+
+// ---------------------------------------------------------------- attester_slashing topic (C12)
+
+//@ ghost n_mark_attsl int
+//@ ghost last_mark_attsl_len int
+//@ sort VIdxs = []common.ValidatorIndex
+//@ sort AttDataT = phase0.AttestationData
+//@ ufun gv_attsl_all_seen(int, VIdxs) bool
+//@ define slashable_data(a AttDataT, b AttDataT) bool = (a != b && a.Target.Epoch == b.Target.Epoch) || (a.Source.Epoch < b.Source.Epoch && b.Target.Epoch < a.Target.Epoch)
+
+//@ func (b AttesterSlashingValBackend) AttesterSlashableAllSeen(indices) r
+//@   trusted
+//@   opt noalloc
+//@   ensures r == gv_attsl_all_seen(gvver, indices)
+
+//@ func (b AttesterSlashingValBackend) MarkAttesterSlashings(indices)
+//@   trusted
+//@   opt noalloc
+//@   assigns ghost(gvver), ghost(n_mark_attsl), ghost(last_mark_attsl_len)
+//@   ensures n_mark_attsl == old(n_mark_attsl) + 1 && last_mark_attsl_len == len(indices)
+
+// R the two attestations are slashable (double or surround vote), both index sets well-formed, both
+// indexed attestations valid against the head state, some validator still slashable;
+// I every slashable index already seen / head unavailable; marked (a non-empty set) iff ACCEPT.
+// The slashable intersection itself is computed through callbacks (ZigZagJoin, Filter) and is not described.
+//@ func ValidateAttesterSlashing(ctx, attSl, attSlVal) res
+//@   property C12
+//@   requires attSl != nil && attSlVal != nil
+//@   assigns ghost(gvver), ghost(n_mark_attsl), ghost(last_mark_attsl_len)
+//@   ensures accept_slashable: res.Result == ACCEPT ==> slashable_data(attSl.Attestation1.Data, attSl.Attestation2.Data)
+//@   ensures accept_sets: res.Result == ACCEPT ==> idxset_ok(gv_spec(attSlVal), attSl.Attestation1) && idxset_ok(gv_spec(attSlVal), attSl.Attestation2)
+//@   ensures accept_head: res.Result == ACCEPT ==> !gv_head_err(old(gvver)) && !st_vals_err(gv_head_state(old(gvver)))
+//@   ensures accept_valid: res.Result == ACCEPT ==> idxatt_ok(gv_spec(attSlVal), gv_head_epc(old(gvver)), gv_head_state(old(gvver)), attSl.Attestation1) && idxatt_ok(gv_spec(attSlVal), gv_head_epc(old(gvver)), gv_head_state(old(gvver)), attSl.Attestation2)
+//@   ensures accept_unseen: res.Result == ACCEPT ==> (exists s VIdxs :: !gv_attsl_all_seen(old(gvver), s))
+//@   ensures reject_not_timing: res.Result == REJECT ==> !slashable_data(attSl.Attestation1.Data, attSl.Attestation2.Data) || !idxset_ok(gv_spec(attSlVal), attSl.Attestation1) || !idxset_ok(gv_spec(attSlVal), attSl.Attestation2) || (!gv_head_err(old(gvver)) && !st_vals_err(gv_head_state(old(gvver))))
+//@   ensures marks: n_mark_attsl == old(n_mark_attsl) + ite(res.Result == ACCEPT, 1, 0) && (res.Result == ACCEPT ==> last_mark_attsl_len > 0) && (res.Result != ACCEPT ==> gvver == old(gvver))
